@@ -42,6 +42,7 @@ type testTree struct {
 	Main         string            `json:"main"`
 	IncludePaths []string          `json:"include_paths"`
 	Filter       string            `json:"filter"`
+	Tags         []string          `json:"tags"`
 }
 
 func testRun(args string) string {
@@ -90,7 +91,7 @@ func testRun(args string) string {
 	if err != nil {
 		return "runerr " + strings.SplitN(err.Error(), "\n", 2)[0]
 	}
-	conf := &config.TestConfig{Filter: tree.Filter, Coverage: tree.Cov, IncludePaths: inc}
+	conf := &config.TestConfig{Filter: tree.Filter, Coverage: tree.Cov, IncludePaths: inc, Tags: tree.Tags}
 	opts := []icontext.Option{icontext.WithResolver(rslv[0]), icontext.WithOverrideVariables(map[string]any{})}
 	factory, err := tester.New(conf, opts).Run(mainPath)
 	if err != nil {
